@@ -1,3 +1,5 @@
+use std::io::Write;
+
 use crate::control::{
     BEL,
     BS,
@@ -113,7 +115,8 @@ pub trait ParserListener {
                 self.restore_cursor();
             }
             _ => {
-                println!("un expected escape code")
+                // A failing stdout must not take the parser down.
+                let _ = writeln!(std::io::stdout(), "un expected escape code");
             }
         }
     }
@@ -142,7 +145,8 @@ pub trait ParserListener {
                 self.shift_in();
             }
             _ => {
-                println!("un expected escape code")
+                // A failing stdout must not take the parser down.
+                let _ = writeln!(std::io::stdout(), "un expected escape code");
             }
         }
     }
@@ -243,7 +247,7 @@ pub trait ParserListener {
                 self.set_margins(params.iter().cloned().nth(0), params.iter().cloned().nth(1))
             }
             ec => {
-                println!("unexpected csi escape code {}", ec);
+                let _ = writeln!(std::io::stdout(), "unexpected csi escape code {}", ec);
             }
         }
     }
